@@ -86,7 +86,17 @@ def gen_species_set(rng, species):
         S = list(species)
         rng.shuffle(S)
     elif kind == "unknown":
-        S = rng.sample(species, rng.randint(0, len(species))) + rng.sample(["Xx", "He", "o", "AL", ""], rng.randint(1, 2))
+        # labels that occur nowhere in the file, including near-misses of labels that do
+        near = []
+        for x in species:
+            near += [x.lower(), x.upper(), x + "x", " " + x, x + "-" + x]
+            if len(x) > 1:
+                near += [x[:-1], x[1:]]
+            if len(x) > 3:
+                near += [x[:3]]
+        near = [n for n in near if n not in species]
+        pool = ["Xx", "He", "", "o"] + near
+        S = rng.sample(species, rng.randint(0, len(species))) + rng.sample(pool, min(len(pool), rng.randint(1, 3)))
         rng.shuffle(S)
     else:
         S = rng.sample(species, rng.randint(1, len(species)))
